@@ -11,6 +11,7 @@ CONSTANTS
   MaxSched = 2
   MaxBad = 3
   MaxTimeouts = 1
+  MaxConnLost = 0
   MaxAttempts = 0
   Filter = FALSE
 INVARIANTS TypeOK FinOnlyAfterAccept ReqOtherwise Unmodified AtLeastOnce NeverLost
